@@ -98,12 +98,15 @@ Proof.
 Qed.
 Lemma fexec_send en f : fexec en f LPeerSend = f.
 Proof. reflexivity. Qed.
+Lemma fexec_foreign en f tr filt : fexec en f (LForeign tr filt) = f.
+Proof. unfold fexec. destruct tr; [reflexivity |]. cbn [lexec l_chan andb]. reflexivity. Qed.
 Lemma lrun_fs en : forall l s, l_fs (lrun en s l) = frun en (l_fs s) l.
 Proof. induction l as [| o r IH]; intro s; [reflexivity |]. cbn [lrun frun]. rewrite IH, lexec_fs. reflexivity. Qed.
 Lemma frun_fsops en : forall l f, frun en f l = frun en f (fsops l).
 Proof.
   induction l as [| o r IH]; intro f; [reflexivity |].
   unfold fsops; cbn [filter]. destruct o; cbn [is_send negb frun]; try apply IH.
+  rewrite fexec_foreign. apply IH.
 Qed.
 
 (* ------------------------------------------------------------------ 4. at any moment *)
